@@ -5,6 +5,7 @@
 
 mod gen;
 mod loopsim;
+mod replay;
 mod sim;
 mod util;
 
@@ -17,10 +18,9 @@ fn main() {
         std::process::exit(2);
     }
     let suite = args[1].clone();
-    let seed: u64 = args[2].parse().expect("seed");
-    let cases: usize = args[3].parse().expect("cases");
     let out = args[4].clone();
     sim::silent_panics();
+    let (seed, cases): (u64, usize) = if suite == "replay" { (0, 0) } else { (args[2].parse().expect("seed"), args[3].parse().expect("cases")) };
     if suite == "udp" {
         let mut trace = String::new();
         for case in 0..cases {
@@ -28,6 +28,22 @@ fn main() {
         }
         std::fs::write(&out, trace).expect("write out file");
         println!("{{\"cases\":{cases}}}");
+        return;
+    }
+    if suite == "replay" {
+        // vharness replay <trace-in> <ignored> <trace-out>
+        let rt = tokio::runtime::Builder::new_current_thread().enable_all().start_paused(true).build().unwrap();
+        let src = args[2].clone();
+        match rt.block_on(async move { replay::replay(&src).await }) {
+            Ok(trace) => {
+                std::fs::write(&out, trace).expect("write out file");
+                println!("{{\"replayed\":true}}");
+            }
+            Err(e) => {
+                println!("{{\"replayed\":false,\"why\":{:?}}}", e);
+                std::process::exit(3);
+            }
+        }
         return;
     }
     let rt = tokio::runtime::Builder::new_current_thread()
